@@ -293,4 +293,25 @@ example : (mrun { n := 2, panics := fun _ _ => false } minit
      .past 0 (.reqLock 1), .past 0 (.lock 1), .past 0 (.recv 1), .past 0 (.unlock 1), .past 0 (.exit 1)]).map
     (fun m => m.past.map (fun s => s.workers)) = some [[.exited, .exited]] := by decide
 
+/-- A task of the first run that is still running when the pool is started again and panics only afterwards: the
+OLD run's recovery thread (detached, still alive) joins and respawns the worker, whose new incarnation finds the
+disconnected channel and exits; the new run is not touched (its panicking set is its own: here empty). -/
+example : (mrun { n := 1, panics := fun g k => g == 0 && k == 0 } minit
+    [.cur .start, .cur (.submit 0), .cur (.reqLock 0), .cur (.lock 0), .cur (.recv 0), .cur (.unlock 0), .cur (.run 0),
+     .restart, .cur (.submit 0),
+     .past 0 (.panic 0), .past 0 (.markerSend 0), .past 0 (.recRecv 0), .past 0 .recJoin, .past 0 .recRespawn,
+     .past 0 (.reqLock 0), .past 0 (.lock 0), .past 0 (.recv 0), .past 0 (.unlock 0), .past 0 (.exit 0),
+     .cur (.reqLock 0), .cur (.lock 0), .cur (.recv 0), .cur (.unlock 0), .cur (.run 0), .cur (.finish 0)]).map
+    (fun m => (m.past.map (fun s => (s.panicked, s.workers)), m.cur.finished, m.cur.workers))
+    = some ([([0], [.exited])], [0], [.idle]) := by decide
+
+/-- `start` is not `Drop`: with the old recovery thread in the middle of a respawn (holding the `threads` mutex),
+`Drop`'s detach loop has to wait (`dropDetach` is not enabled) while starting the pool again goes through. -/
+example : (mrun { n := 1, panics := fun _ k => k == 0 } minit
+    [.cur .start, .cur (.submit 0), .cur (.reqLock 0), .cur (.lock 0), .cur (.recv 0), .cur (.unlock 0), .cur (.run 0),
+     .cur (.panic 0), .cur (.markerSend 0), .cur (.recRecv 0)]).map
+    (fun m => ((mstep { n := 1, panics := fun _ k => k == 0 } m .restart).isSome,
+               (step { n := 1, panics := fun k => k == 0 } { m.cur with caller := .dropThreads } .dropDetach).isSome))
+    = some (true, false) := by decide
+
 end Humphrey.Pool
